@@ -3,6 +3,7 @@ package c20
 import (
 	"errors"
 	"fmt"
+	"os"
 	"runtime/debug"
 	"strings"
 	"testing"
@@ -213,6 +214,23 @@ func acceptReject(v []byte) string {
 	return string(b)
 }
 
+// comparablePrefix: the outcome vectors of two attempts are compared up to the first panic of either.
+func comparablePrefix(a, b []byte, max int) int {
+	n := max
+	if len(a) < n {
+		n = len(a)
+	}
+	if len(b) < n {
+		n = len(b)
+	}
+	for i := 0; i < n; i++ {
+		if a[i] == 'p' || b[i] == 'p' {
+			return i
+		}
+	}
+	return n
+}
+
 func postAdds(fe string) []Op {
 	switch fe {
 	case "chain":
@@ -237,17 +255,28 @@ func optClass(opt string) string {
 	return "pregel"
 }
 
-// keyedPassthroughNear: does call i of ops touch a passthrough node that was declared with an input or
-// output key (Compile and the chain's appending calls: is there such a node at all).
-func keyedPassthroughNear(ops []Op, i int) bool {
-	keyed := map[string]bool{}
-	any := false
-	for _, o := range ops[:i+1] {
+// keyedPassthroughs: the keys of the passthrough nodes declared with an input or output key (any: also
+// in a chain, whose nodes have no key in the call model, or in a graph that is added as a node).
+func keyedPassthroughs(ops []Op) (keys map[string]bool, any bool) {
+	keys = map[string]bool{}
+	for _, o := range ops {
 		if h := parseH(o.H); (h.inKey || h.outKey) && (o.K == "P" || o.K == "CP" || (o.K == "WN" && o.Typ == "P")) {
-			keyed[o.Key] = true
+			keys[o.Key] = true
 			any = true
 		}
+		if o.Sub != nil {
+			if _, sub := keyedPassthroughs(o.Sub.Ops); sub {
+				any = true
+			}
+		}
 	}
+	return keys, any
+}
+
+// keyedPassthroughNear: does call i of ops touch a passthrough node that was declared with an input or
+// output key (Compile and the builder calls of chains and workflows: is there such a node at all).
+func keyedPassthroughNear(ops []Op, i int) bool {
+	keyed, any := keyedPassthroughs(ops[:i+1])
 	switch op := ops[i]; op.K {
 	case "E":
 		return keyed[op.From] || keyed[op.To]
@@ -267,13 +296,36 @@ func keyedPassthroughNear(ops []Op, i int) bool {
 	return any
 }
 
+// panicSignature: C20/panic/<front end>-<call>/<the reference's rule for that call>; for a Compile that
+// met the problem in a graph added as a node: nested-<front end of that graph>-compile/<its rule>.
+func panicSignature(fe string, ops []Op, i int, rule, where string) string {
+	if where != "" {
+		return "C20/panic/" + where
+	}
+	site := fe + "-" + callName(ops[i])
+	inner, innerSite := rule, site
+	for strings.HasPrefix(inner, "nested-") {
+		cut := strings.IndexByte(inner, '/')
+		innerSite, inner = inner[:cut]+"-compile", inner[cut+1:]
+	}
+	switch {
+	case inner == keyedOnBothSides:
+		// one root cause whatever the front end and the nesting
+		return "C20/panic/compile/uninferred-passthrough-keyed-on-both-sides"
+	case keyedPassthroughNear(ops, i):
+		// a call that works on such a node: what else the reference finds about the call (a Compile
+		// covers every deferred declaration) is another matter
+		return "C20/panic/" + site + "/at-keyed-passthrough"
+	case innerSite != site:
+		return "C20/panic/" + innerSite + "/" + inner
+	}
+	return "C20/panic/" + site + "/" + panicRule(rule)
+}
+
 // panicRule names the reference's view of a call that panicked.
-func panicRule(ops []Op, i int, rule string) string {
+func panicRule(rule string) string {
 	if rule != "" {
 		return rule
-	}
-	if keyedPassthroughNear(ops, i) {
-		return "well-formed-call-at-keyed-passthrough"
 	}
 	return "well-formed-call"
 }
@@ -383,6 +435,10 @@ func (c *checker) checkSeq(s *Seq) {
 			res := at.inst.apply(op)
 			at.res = append(at.res, res)
 			at.vec = append(at.vec, res.class())
+			if res.Panic != nil {
+				// the objects are in an undefined state after a panic: nothing that follows says anything
+				break
+			}
 			if a != 0 {
 				continue
 			}
@@ -438,21 +494,23 @@ func (c *checker) checkSeq(s *Seq) {
 			first = at
 			continue
 		}
-		// a panic is reported on its own (below); for the comparison of outcomes it counts as a rejection
+		// a panic is reported on its own (below) and ends its attempt; the outcomes are compared up to there
+		// (error in one attempt, panic in the other: both "not accepted")
 		for i, cl := range at.vec {
-			if cl == 'p' && first.vec[i] != 'p' {
+			if cl == 'p' && (i >= len(first.vec) || first.vec[i] != 'p') {
 				strays = append(strays, stray{i, at.res[i]})
 			}
 		}
-		if acceptReject(at.vec) != acceptReject(first.vec[:len(ops)]) {
+		n := comparablePrefix(at.vec, first.vec, len(ops))
+		if acceptReject(at.vec[:n]) != acceptReject(first.vec[:n]) {
 			sig := "C20/nondeterministic-outcome/" + s.FE
 			if mappedAtPassthrough(ops) {
 				sig += "/field-mapped-input-at-passthrough"
 			}
 			rep.Violation(sig,
 				fmt.Sprintf("the same construction sequence gave different accept/reject vectors on two attempts: %s vs %s (o=accepted e=error p=panic n=no result)\ncalls: %s",
-					first.vec[:len(ops)], at.vec, s.Text),
-				witness{Seq: s, Vector: string(first.vec[:len(ops)]) + " / " + string(at.vec)})
+					first.vec[:n], at.vec[:n], s.Text),
+				witness{Seq: s, Vector: string(first.vec[:n]) + " / " + string(at.vec[:n])})
 			break
 		}
 	}
@@ -468,12 +526,8 @@ func (c *checker) checkSeq(s *Seq) {
 
 	for _, st := range strays {
 		op := ext[st.at]
-		site := s.FE + "-" + callName(op) + "/" + panicRule(ext, st.at, preds[st.at].rule)
-		if st.res.Where != "" {
-			site = st.res.Where
-		}
-		rep.Violation("C20/panic/"+site,
-			fmt.Sprintf("%s panicked on one of %d attempts of the same sequence (an error on the first attempt): %s\nfirst eino frame: %s\n%s",
+		rep.Violation(panicSignature(s.FE, ext, st.at, preds[st.at].rule, st.res.Where),
+			fmt.Sprintf("%s panicked on one of %d attempts of the same sequence (not on the first attempt): %s\nfirst eino frame: %s\n%s",
 				callName(op), reps, firstLine(st.res.Panic.Value), st.res.Panic.FirstFrame("github.com/cloudwego/eino/"), text(st.at)),
 			witness{Seq: s, Position: st.at - np, Call: op.String(), Observed: "PANIC on a later attempt", Vector: string(first.vec)})
 		break
@@ -495,11 +549,7 @@ func (c *checker) checkSeq(s *Seq) {
 		w := witness{Seq: s, Position: i - np, Call: op.String(), Predicted: predText, Observed: classText(cls), Vector: string(first.vec)}
 		switch {
 		case cls == 'p':
-			site := s.FE + "-" + callName(op) + "/" + panicRule(ext, i, p.rule)
-			if res.Where != "" {
-				site = res.Where
-			}
-			rep.Violation("C20/panic/"+site,
+			rep.Violation(panicSignature(s.FE, ext, i, p.rule, res.Where),
 				fmt.Sprintf("%s panicked instead of returning an error (reference: %s): %s\nfirst eino frame: %s\n%s",
 					callName(op), predText, firstLine(res.Panic.Value), res.Panic.FirstFrame("github.com/cloudwego/eino/"), text(i)),
 				w)
@@ -516,7 +566,10 @@ func (c *checker) checkSeq(s *Seq) {
 			// rejection is therefore counted, not reported; determinism and stickiness of this sequence
 			// are still judged above, the reference comparison stops here.
 			rep.Count("rejected_although_reference_finds_it_well_formed", 1)
-			_ = firstLine
+			if strings.HasPrefix(s.Family, "shape") {
+				rep.Count("shape_rejected_although_reference_finds_it_well_formed", 1)
+			}
+			debugLine("REJECTED-WELL-FORMED", s, fmt.Sprintf("%s: %s", text(i), firstLine(res.Err.Error())))
 			agree = false
 		}
 		if !agree {
@@ -533,7 +586,7 @@ func (c *checker) checkSeq(s *Seq) {
 			}
 			rep.Count("rule-in-nested-graph/"+rule, 1)
 		}
-		for _, group := range []string{"chain-deferred-error", "cycle-in-all-predecessor-mode"} {
+		for _, group := range []string{"chain-deferred-error", "cycle-in-all-predecessor-mode", "uninferred-passthrough"} {
 			if strings.HasPrefix(rule, group+"/") {
 				rep.Count("rule/"+rule, 1)
 				rule = group
@@ -622,6 +675,20 @@ func (c *checker) checkSeq(s *Seq) {
 	}
 }
 
+// debugLine: with C20_DEBUG_FILE set, disagreements that are only counted are written there (development aid).
+func debugLine(kind string, s *Seq, text string) {
+	path := os.Getenv("C20_DEBUG_FILE")
+	if path == "" {
+		return
+	}
+	f, err := os.OpenFile(path, os.O_APPEND|os.O_CREATE|os.O_WRONLY, 0o644)
+	if err != nil {
+		return
+	}
+	defer f.Close()
+	fmt.Fprintf(f, "%s [%s/%s] %s\n", kind, s.FE, s.Family, text)
+}
+
 func (c *checker) corruptionClass(s *Seq) string {
 	if s.FE == "workflow" && hasFieldMapping(s.all()) {
 		return "workflow-field-mapping"
@@ -685,7 +752,8 @@ func TestCheck(t *testing.T) {
 	cfg := mon.Load("C20")
 	// millions of tiny short-lived builder objects, a few MB live: collect less often
 	debug.SetGCPercent(1600)
-	nRandom := cfg.Pick(2400, 24000) // every 4th is a random sequence of late operations
+	// of every 10 sampled cases: 3 random call sequences, 1 random sequence of late operations, 6 structures
+	nRandom := cfg.Pick(6000, 60000)
 
 	var famDesc []string
 	for _, f := range families {
@@ -803,11 +871,23 @@ func TestCheck(t *testing.T) {
 			rep.Count("enumerated_sequences", u.count)
 			return
 		}
-		if (idx-int64(len(myUnits)))%4 == 3 {
+		switch k := (idx - int64(len(myUnits))) % 10; {
+		case k == 3:
 			ls := randomLateSeq(rng)
 			c.checkLate(ls)
 			rep.NonTrivial(ls.digest())
 			rep.Count("random_late_sequences", 1)
+			return
+		case k > 3:
+			s := shapeSeq(rng)
+			c.checkSeq(s)
+			rep.Count("structure_sequences", 1)
+			for _, t := range strings.Split(s.Family, ":")[1:] {
+				rep.Count("structure_with/"+t, 1)
+			}
+			if idx-int64(len(myUnits)) < 8 {
+				rep.Sample(s)
+			}
 			return
 		}
 		s := randomSeq(rng)
